@@ -211,7 +211,9 @@ Record scfg := mkScfg {
   c_mpwp_max : Z; c_minprec : Z;
   c_pprec : Z;                       (* active_poly->prec *)
   c_user : bool;                     (* density == MPS_DENSITY_USER *)
-  c_fixed : bool                     (* false: the code as it is; true: with fixes/C02_silent_precision_cap.patch *)
+  c_fixed : bool                     (* the "Reached the input precision" branch of == 8 ==.  false: it records nothing (the code before /repo
+                                        commit 6608fee8); true: it sets over_max (fixes/C02_silent_precision_cap.patch = 6608fee8, the code since).
+                                        checks/C02.py reads off the snapshot's main.c which one replays the traces *)
 }.
 
 (* what the opaque calls return / leave behind, in call order *)
@@ -321,7 +323,7 @@ Definition mp_part (cfg : scfg) (st : lstate) (evs : list sev) : option sout :=
     | Some (st1, rest) =>
       if l_computed st1 then exit_sub cfg HLoopComputed st1 rest
       else if l_over st1 then exit_sub cfg HOverMax st1 rest
-      else (* "Reached the input precision": nothing is recorded *)
+      else (* "Reached the input precision": nothing is recorded (before 6608fee8) / over_max = true (since) *)
         if c_fixed cfg then exit_sub cfg HSilent (mkLs false true (l_mpwp st1) (l_roots st1) (l_stops st1) (l_seen st1) (l_lastmod st1)) rest
         else exit_sub cfg HSilent st1 rest
     end.
